@@ -16,7 +16,13 @@ import (
 )
 
 func init() {
-	core.Register(core.Check{ID: "C03", Level: "exploration", Run: func(c *core.Ctx) { runC03(c); historyPass(c, "C03"); reentrancyPass(c, "C03"); arch386Pass(c, "C03") }})
+	core.Register(core.Check{ID: "C03", Level: "exploration", Run: func(c *core.Ctx) {
+		waitArch := background(func() { arch386Pass(c, "C03") })
+		runC03(c)
+		historyPass(c, "C03")
+		reentrancyPass(c, "C03")
+		waitArch()
+	}})
 }
 
 // official BIP-39 word list files (bitcoin/bips bip-0039/*.txt), SHA-256
